@@ -2157,7 +2157,8 @@ def lex_tokens(line):
     match = RE_STRING.match(line.contents)
     if match is not None:
         value = match.group(1)
-        value = value.encode('utf-8').decode('unicode_escape')
+        # latin-1 + backslashreplace keeps non-ASCII text intact through unicode_escape
+        value = value.encode('latin-1', 'backslashreplace').decode('unicode_escape')
         tokens = ['string', value]
         return LineTokens(line, tokens)
 
